@@ -908,6 +908,21 @@ def check_fit(case, rec):
     yy = y.reshape(dim, n) if (is_dir and case["y2d"]) else y
     if case["as_list"]:
         yy = yy.tolist()
+    else:
+        # memory layouts of equal arrays: transposed view of a (bins, dim) table, Fortran order, read-only
+        lay = case.get("seed", 0) % 4 if "seed" in case else (n + k_free) % 4
+        if is_dir and case["y2d"] and lay == 1:
+            yy = np.ascontiguousarray(np.asarray(yy).T).T
+            rec.label("y_transposed_view")
+        elif is_dir and case["y2d"] and lay == 2:
+            yy = np.asfortranarray(yy)
+            rec.label("y_fortran_order")
+        elif lay == 3:
+            yy = np.array(yy)
+            yy.setflags(write=False)
+            xx = np.array(xx)
+            xx.setflags(write=False)
+            rec.label("xy_read_only")
     kw = dict(
         anis=anis_arg,
         sill=case["sill"],
